@@ -33,12 +33,12 @@ func vfGccNewDriver(sc *vfGccScript, lg *vfGccLog) (*vfGccDriver, error) {
 	var leaky *LeakyBucketPacer
 	switch sc.Pacer {
 	case "rec":
-		opts = append(opts, SendSideBWEPacer(&vfGccRecPacer{log: lg, inner: &vfGccDirect{}}))
+		opts = append(opts, SendSideBWEPacer(&vfGccRecPacer{log: lg, inner: &vfGccDirect{}, closeErr: sc.PCloseErr}))
 	case "noop":
-		opts = append(opts, SendSideBWEPacer(&vfGccRecPacer{log: lg, inner: NewNoOpPacer()}))
+		opts = append(opts, SendSideBWEPacer(&vfGccRecPacer{log: lg, inner: NewNoOpPacer(), closeErr: sc.PCloseErr}))
 	case "leaky":
 		leaky = NewLeakyBucketPacer(init)
-		opts = append(opts, SendSideBWEPacer(&vfGccRecPacer{log: lg, inner: leaky}))
+		opts = append(opts, SendSideBWEPacer(&vfGccRecPacer{log: lg, inner: leaky, closeErr: sc.PCloseErr}))
 	case "default":
 	default:
 		return nil, fmt.Errorf("unknown pacer %q", sc.Pacer)
